@@ -359,9 +359,10 @@ def run(args, res):
         "%d descriptions (<= 4 shell commands; file, virtual, directory, multi-output, phony-gate edges) x every non-empty "
         "subset of shell commands directed to fail through the vcmd control file x kind {%s} x index k in {0,1,2} of the "
         "failing build (k ordinary builds with source edits before it) x {--serial,-j4} x {repair at once, one unrepaired "
-        "retry first}; then repair and rebuild; plus SIGINT to llbuild while each single command is blocked on a FIFO gate "
+        "retry first%s}; then repair and rebuild; plus SIGINT to llbuild while each single command is blocked on a FIFO gate "
         "(k in %s); evaluations = failing/interrupted builds judged; distinct_nontrivial = those in which a directed command "
-        "was actually reached" % (len(fams), ", ".join(kinds), "{0,1,2}" if args.tier == "thorough" else "{0,1}"))
+        "was actually reached" % (len(fams), ", ".join(kinds), "" if args.tier == "thorough" else " (quick: only for k=1)",
+                                  "{0,1,2}" if args.tier == "thorough" else "{0,1}"))
     res.assumptions.append("`exit1` fails before writing, `exit1-after` after writing all outputs, `kill`/`kill-after` raise SIGKILL "
                            "in the command itself, `need` refuses because an undeclared file is missing (repair creates it), "
                            "`unwritable` obstructs the command's last file output with a directory (or a file for a directory output)")
